@@ -3,11 +3,11 @@
 META = {
     'level': 'fault_enumeration',
     'rule': ('Single-fault injection into the save of one victim task (a bystander task is saved normally alongside): '
-             '(i) every executed labtech line of the save path (sys.monitoring LINE failpoint armed around '
+             '(i) every executed labtech line of the save path (sys.monitoring LINE failpoint, alternately raising an OSError and a BaseException that is not an Exception, armed around '
              'BaseCache.save; a first pass counts the lines, then every k - serial: all k, fork worker: strided '
              'sample in the quick tier, all k in the thorough tier); (ii) storage operations through a '
              'LocalStorage subclass: open of metadata/data fails before or after the file exists, j-th write() of '
-             'either file fails (all j), flush fails, close fails; (iii) unpicklable / non-JSON-able object at depth '
+             'either file fails (all j), flush fails, close fails; (iii) an object whose pickling raises TypeError or SystemExit (a failure that is not an Exception) / a non-JSON-able object, at depth '
              '0/2/5 of a small or ~300 KiB result; x cache format {pickle, json} x {first save, overwrite of an '
              'existing entry via bust_cache} x result shape {small, nested, big} x victim {serial caller, fork '
              'worker}. Oracle on the post-state (same process and a fresh Lab): the victim is absent from the '
@@ -65,13 +65,14 @@ def run_case(case, rep=None, count_only=False):
         tplan = {'v': {'shape': case['shape']}}
         default = {}
         if fault['kind'] == 'line':
-            tplan['v']['inject'] = {'k': (None if count_only else fault['k']), 'action': 'raise'}
+            tplan['v']['inject'] = {'k': (None if count_only else fault['k']), 'action': fault.get('action', 'raise')}
         elif fault['kind'] == 'storage':
             default['storage_fault'] = {'op': ('count' if count_only else fault['op']), 'j': fault.get('j', 0),
                                         'file': fault.get('file'), 'gen': 1,
                                         'key': Built(spec).inst('v').cache_key}
         elif fault['kind'] == 'unpicklable':
-            tplan['v']['shape'] = ('unpicklable-big' if fault.get('big') else 'unpicklable') + f":{fault['depth']}"
+            tplan['v']['shape'] = ('unpicklable-big' if fault.get('big') else 'unpicklable') + \
+                ('-sysexit' if fault.get('base') else '') + f":{fault['depth']}"
         engine.write_plan(ctl, 1, tplan, default)
         pre = len(events.read_events(ctl))
         b1 = Built(spec)
@@ -208,7 +209,9 @@ def enumerate_cases(rep, stride_fork):
                             rep.seen('save_path_functions', s)
                         ks = range(1, n + 1) if backend == 'serial' else range(1 + (hash((cache, mode)) % stride_fork), n + 1, stride_fork)
                         for k in ks:
-                            cases.append(dict(cfg, fault={'kind': 'line', 'k': k}))
+                            # every second point with a failure that is not an Exception (SystemExit-like)
+                            cases.append(dict(cfg, fault={'kind': 'line', 'k': k,
+                                                          'action': ('raise-base' if k % 2 else 'raise')}))
                     if backend == 'serial' or (shape == 'small' and mode == 'first'):
                         c = run_case(dict(cfg, fault={'kind': 'storage', 'op': 'count'}), count_only=True)
                         for fn, nw in c['writes'].items():
@@ -221,8 +224,9 @@ def enumerate_cases(rep, stride_fork):
                     for backend in ('serial', 'fork'):
                         for depth in (0, 2, 5):
                             for big in (False, True):
-                                cases.append({'cache': cache, 'mode': mode, 'shape': shape, 'backend': backend,
-                                              'fault': {'kind': 'unpicklable', 'depth': depth, 'big': big}})
+                                for base in ((False, True) if cache == 'NS' else (False,)):
+                                    cases.append({'cache': cache, 'mode': mode, 'shape': shape, 'backend': backend,
+                                                  'fault': {'kind': 'unpicklable', 'depth': depth, 'big': big, 'base': base}})
     return cases
 
 
